@@ -51,7 +51,9 @@ def gen_op(rng, gd, dist, layers, ic):
         return ("apply_path", {"state": st, "path": [rng.randrange(G.n_gens(gd)) for _ in range(rng.randint(0, 4))],
                                "as": rng.choice(["list", "tensor", "ndarray", "central_state_of_the_graph"])})
     if k < 0.9:
-        return ("export", {})
+        order = ["edges_list", "vertex_names", "adjacency_matrix", "adjacency_matrix_sparse", "named_undirected_edges", "networkx_directed", "networkx_undirected"]
+        rng.shuffle(order)
+        return ("export", {"order": order})
     if k < 0.93:
         return ("modified_copy_bfs", {"central": st})
     if k < 0.97:
@@ -103,8 +105,29 @@ def do_op(graph, gd, op, args):
             out = canon(graph.apply_path(obj, args["path"]))
             return ("ok", [out, canon(obj) == canon(list(args["state"])), canon(graph.apply_path(obj, args["path"])) == out])
         if op == "export":
-            r = graph.bfs(return_all_edges=True, return_all_hashes=True, max_layer_size_to_store=None, max_diameter=3)
-            return ("ok", [canon(r.edges_list), r.vertex_names if gd["kind"] == "perm" else len(r.vertex_names)])
+            import numpy as np
+            kwb = dict(return_all_edges=True, return_all_hashes=True, max_layer_size_to_store=None, max_diameter=3)
+            r = graph.bfs(**kwb)
+            exports = {
+                "edges_list": lambda x: canon(x.edges_list),
+                "vertex_names": lambda x: x.vertex_names if gd["kind"] == "perm" else len(x.vertex_names),
+                "adjacency_matrix": lambda x: canon(x.adjacency_matrix()),
+                "adjacency_matrix_sparse": lambda x: sorted(zip(x.adjacency_matrix_sparse().row.tolist(), x.adjacency_matrix_sparse().col.tolist())),
+                "named_undirected_edges": lambda x: sorted(map(list, x.named_undirected_edges())),
+                "networkx_directed": lambda x: sorted((str(u), str(v), str(d_)) for u, v, d_ in x.to_networkx_graph(directed=True).edges(data="label")),
+            }
+            if graph.definition.generators_inverse_closed:
+                exports["networkx_undirected"] = lambda x: sorted(tuple(sorted((str(u), str(v)))) for u, v in x.to_networkx_graph().edges())
+            order = list(args.get("order") or sorted(exports))
+            out = []
+            for nm in order:
+                if nm not in exports:
+                    continue
+                # each export of the long-lived result object equals the same export of a result nobody has touched yet
+                a_ = exports[nm](r)
+                b_ = exports[nm](graph.bfs(**kwb))
+                out.append([nm, a_ == b_])
+            return ("ok", [canon(r.edges_list), out])
         if op == "modified_copy_bfs":
             g2 = graph.modified_copy(graph.definition.with_central_state(args["central"]))
             same_hash = canon(g2.hasher.make_hashes(g2.encode_states(args["central"]))) == canon(graph.hasher.make_hashes(graph.encode_states(args["central"])))
@@ -173,6 +196,9 @@ def run(ctx):
         i1 = rng.randint(0, len(ops))
         ops.insert(i1, fp1)
         ops.insert(rng.randint(i1 + 1, len(ops)), fp2)
+        order_ = ["networkx_undirected", "named_undirected_edges", "networkx_directed", "adjacency_matrix", "edges_list", "adjacency_matrix_sparse", "vertex_names"]
+        rng.shuffle(order_)
+        ops.insert(rng.randint(0, len(ops)), ("export", {"order": order_}))
         ops.insert(rng.randint(0, len(ops)), ("apply_path", {"state": far_, "path": [rng.randrange(G.n_gens(gd)) for _ in range(rng.randint(2, 4))],
                                                              "as": rng.choice(["central_state_of_the_graph", "tensor", "ndarray"])}))
         ops.insert(rng.randint(1, len(ops)), ("copy_queries", {"central": list(rng.choice(verts_)), "start": list(rng.choice(verts_)),
@@ -199,6 +225,11 @@ def run(ctx):
             if op == "apply_path" and got[0] == "ok" and args.get("as") in ("list", "tensor", "ndarray") and (got[1][1] is not True or got[1][2] is not True):
                 ctx.violation("property_fails", f"operation #{j} (apply_path with a {args['as']} argument) modified its argument or answers differently when repeated: {str(got)[:160]}",
                               dict(case, failing_index=j, got=str(got)[:300]), True)
+                break
+            if op == "export" and got[0] == "ok" and not all(ok_ for _nm, ok_ in got[1][1]):
+                ctx.violation("property_fails", f"operation #{j}: exports of one BfsResult object asked in the order {[nm for nm, _ in got[1][1]]} - "
+                              f"{[nm for nm, ok_ in got[1][1] if not ok_]} differ from the same export of an untouched result",
+                              dict(case, failing_index=j, got=str(got[1][1])[:300]), True)
                 break
             if got != fresh:
                 ctx.violation("property_fails", f"operation #{j} ({op}) returns something else after the earlier operations than on a fresh graph",
